@@ -58,10 +58,19 @@ theorem Pend_setW (s s' : St) (i : Nat) (w : Worker) (pc' : WPc) (h : Pend s) (h
 
 /-! ### facts about the live connection -/
 
-theorem Inv.live_of_npc {s : St} (h : Inv s) (hn : s.npc ≠ .idle) : s.live = true := by
+theorem Inv.live_of_npc {s : St} (h : Inv s) (hn : s.npc ≠ .idle) (hn2 : s.npc ≠ .inFlush) : s.live = true := by
   cases hl : s.live with
   | true => rfl
-  | false => exact absurd (h.env.notLive hl).1 hn
+  | false =>
+    rcases (h.env.notLive hl).1 with h1 | h1
+    · exact absurd h1 hn
+    · exact absurd h1 hn2
+
+/-- something waits in the current queue: a connection is up (a disconnect leaves a fresh, empty queue) -/
+theorem Inv.live_of_queue {s : St} (h : Inv s) (hq : qGetL s.queues s.curQ ≠ []) : s.live = true := by
+  cases hl : s.live with
+  | true => rfl
+  | false => exact absurd (h.env.notLive hl).2.2 hq
 
 theorem Inv.post_of_not_hs {s : St} (h : Inv s) (hl : s.live = true) (hps : pstate s ≠ .handshake) : Post (obs s) := by
   obtain ⟨pc, hp⟩ := h.cur_phase hl
@@ -83,21 +92,20 @@ theorem Inv.bad_of_not_transport {s : St} (h : Inv s) (hl : s.live = true) (hps 
 
 theorem Inv_net_check_hs (s : St) (h : Inv s) (hp : pstate s = .handshake) : Inv { s with npc := .idle } := by
   refine Inv_of_same_workers s _ h rfl rfl h.st.qk rfl rfl rfl rfl rfl (fun _ pc hpc => (Phase_npc (obs s) .idle pc).mpr hpc) ?_ ?_
-  · exact Env_npc (obs s) .idle h.env (fun _ => rfl) (fun hx => by simp at hx)
+  · exact Env_npc (obs s) .idle h.env (fun _ => Or.inl rfl) (fun hx => by simp at hx)
   · exact Pend_of_ps _ (by show pstate s ≠ _; rw [hp]; simp)
 
 theorem Inv_net_check_other (s : St) (h : Inv s) (hn : s.npc = .check) (hp : pstate s ≠ .handshake) :
     Inv { s with npc := .wantFlush } := by
-  have hl := h.live_of_npc (by rw [hn]; simp)
+  have hl := h.live_of_npc (by rw [hn]; simp) (by rw [hn]; simp)
   refine Inv_of_same_workers s _ h rfl rfl h.st.qk rfl rfl rfl rfl rfl (fun _ pc hpc => (Phase_npc (obs s) .wantFlush pc).mpr hpc) ?_ ?_
   · exact Env_npc (obs s) .wantFlush h.env (fun hf => by rw [show (obs s).live = s.live from rfl, hl] at hf; cases hf) (fun _ => hp)
   · exact Pend_of_npc _ (by simp)
 
 theorem Inv_net_want_free (s : St) (h : Inv s) (hn : s.npc = .wantFlush) :
     Inv { s with flushHeld := true, npc := .inFlush } := by
-  have hl := h.live_of_npc (by rw [hn]; simp)
   refine Inv_of_same_workers s _ h rfl rfl h.st.qk rfl rfl rfl rfl rfl (fun _ pc hpc => (Phase_npc (obs s) .inFlush pc).mpr hpc) ?_ ?_
-  · exact Env_npc (obs s) .inFlush h.env (fun hf => by rw [show (obs s).live = s.live from rfl, hl] at hf; cases hf)
+  · exact Env_npc (obs s) .inFlush h.env (fun _ => Or.inr rfl)
       (fun _ => h.env.netFlush (Or.inl hn))
   · exact Pend_of_npc _ (by simp)
 
@@ -126,15 +134,15 @@ theorem obs_undec (s : St) (h : Inv s) (rest : List Seg) :
   exact h1.trans (congrArg (fun o : Obs => { o with Q := rest }) h2)
 
 theorem Inv_net_flush (cfg : Cfg) (s : St) (h : Inv s) (hn : s.npc = .inFlush) : Inv (step cfg s .net) := by
-  have hl := h.live_of_npc (by rw [hn]; simp)
   have hnh : pstate s ≠ .handshake := h.env.netFlush (Or.inr hn)
   cases hQ : qGetL s.queues s.curQ with
   | nil =>
     rw [step_net_flush_empty cfg s s hn (flushOne_empty s hQ)]
     refine Inv_of_same_workers s _ h rfl rfl h.st.qk rfl rfl rfl rfl rfl (fun _ pc hpc => (Phase_npc (obs s) .idle pc).mpr hpc) ?_ ?_
-    · exact Env_npc (obs s) .idle h.env (fun _ => rfl) (fun hx => by simp at hx)
+    · exact Env_npc (obs s) .idle h.env (fun _ => Or.inl rfl) (fun hx => by simp at hx)
     · exact Pend_of_empty _ hQ
   | cons sg rest =>
+    have hl : s.live = true := h.live_of_queue (by rw [hQ]; simp)
     by_cases hpt : pstate s = .transport
     · cases hc : (sg.kind == .frame && sg.good && keyOf s == some sg.conn) with
       | true =>
@@ -152,7 +160,7 @@ theorem Inv_net_flush (cfg : Cfg) (s : St) (h : Inv s) (hn : s.npc = .inFlush) :
           congrArg (fun o : Obs => { o with npc := .idle, up := s.up ++ [Up.raised] }) ho
         have he1 : Env ({ obs s with ps := .error, key := (obs s).key, Q := rest } : Obs) :=
           Env_cur (obs s) .error _ rest h.env hl (fun _ => by simp)
-        have he2 := Env_npc _ .idle he1 (fun _ => rfl) (fun hx => by simp at hx)
+        have he2 := Env_npc _ .idle he1 (fun _ => Or.inl rfl) (fun hx => by simp at hx)
         have he3 := Env_up_other _ .raised he2 (fun _ => by simp) (fun _ => hb)
         refine Inv_of_same_workers s _ h (by simp) (qSetL_length _ _ _ h.st.qk h.curQ_lt) (QK_qSetL _ _ _ h.st.qk h.curQ_lt)
           rfl rfl rfl rfl rfl ?_ ?_ ?_
@@ -168,7 +176,7 @@ theorem Inv_net_flush (cfg : Cfg) (s : St) (h : Inv s) (hn : s.npc = .inFlush) :
           intro hx; rw [show pstate _ = Obs.ps (obs _) from rfl, this] at hx; cases hx
     · rw [step_net_flush_refused cfg s s hn (flushOne_refused s sg rest hQ hpt)]
       have hb := h.bad_of_not_transport hl hnh hpt
-      have he2 := Env_npc _ .idle h.env (fun _ => rfl) (fun hx => by simp at hx)
+      have he2 := Env_npc _ .idle h.env (fun _ => Or.inl rfl) (fun hx => by simp at hx)
       have he3 := Env_up_other _ .raised he2 (fun _ => by simp) (fun _ => hb)
       refine Inv_of_same_workers s _ h rfl rfl h.st.qk rfl rfl rfl rfl rfl ?_ he3 (Pend_of_ps _ hpt)
       intro _ pc hpc
@@ -212,7 +220,7 @@ theorem Inv_connect (cfg : Cfg) (s : St) (h : Inv s) (ha : Allowed s .connect = 
       { obs s with conn := (obs s).conn + 1, live := true, helloSeen := false, ps := .handshake, key := none } :=
     congrArg (fun o : Obs => { o with conn := s.conn + 1, live := true, helloSeen := false })
       (obs_protos_cur s { state := .handshake, keyOf := none } h.curP_lt)
-  obtain ⟨he, hph⟩ := Env_connect (obs s) h.env hl
+  obtain ⟨he, hph⟩ := Env_connect (obs s) h.env hl hn
   have hwl := h.st.wl
   refine ⟨⟨?_, h.st.sq, h.st.qk, ?_, ?_, ?_, ?_⟩, ?_, ?_, ?_⟩
   · show s.curP + 1 = (s.protos.set s.curP _).length
@@ -247,7 +255,7 @@ theorem Inv_connect (cfg : Cfg) (s : St) (h : Inv s) (ha : Allowed s .connect = 
 
 theorem Inv_disconnect (s : St) (h : Inv s) (ha : Allowed s .disconnect = true) :
     Inv (step { freshQueue := true, freshProtocol := true, segReset := true } s .disconnect) := by
-  simp only [Allowed, Bool.and_eq_true, beq_iff_eq] at ha
+  simp only [Allowed, Bool.and_eq_true, Bool.or_eq_true, beq_iff_eq] at ha
   obtain ⟨hn, hl⟩ := ha
   rw [step_disconnect s hn]
   have hQ : qGetL (s.queues ++ [(s.queues.length, [])]) s.queues.length = [] := by
